@@ -665,6 +665,40 @@ def taking_probes(rec):
                     rec.violation("taking-damages-elaborated-owner", f"after a {thief_kind} took ({form}) the {what} of an elaborated module as 'stolen', the module or a new "
                                   f"parent instantiating it exports a different package", case=case, taken=what)
 
+    # additions through a COPY of a holder: refused, or they are the copy's alone
+    import copy as _copy
+
+    for holder in ("module", "elaborated-module", "bundle", "closed-bundle"):
+        for how in ("copy", "deepcopy"):
+            rec.count("taking.probed")
+            case = {"kind": "taking", "what": f"additions through a {how} of a {holder}"}
+            rec.case(key=f"taking:copy:{holder}:{how}", nontrivial=True, sample=case)
+            B = h.Bundle(name=f"CpB{next(_ctr)}")
+            B.add(h.Signal(), name="x")
+            M = h.Module(name=f"CpM{next(_ctr)}")
+            M.a = h.Input()
+            M.add(B(port=True), name="bp")
+            M.r = h.R(r=1)(p=M.a, n=M.bp.x)
+            if holder in ("elaborated-module", "closed-bundle"):
+                h.elaborate(M)
+            before = h.to_proto(M).SerializeToString(deterministic=True) if holder != "module" and holder != "bundle" else None
+            orig = M if "module" in holder else B
+            names_before = sorted(orig.namespace)
+            try:
+                cp = (_copy.copy if how == "copy" else _copy.deepcopy)(orig)
+                cp.add(h.Signal() if "bundle" in holder else h.Input(), name="added_through_copy")
+                rec.count("taking.accepted")
+            except Exception:
+                rec.count("taking.refused")
+                continue
+            if sorted(orig.namespace) != names_before:
+                rec.violation("addition-through-copy-reaches-original", f"an attribute added to a {how} of a {holder} shows up in the original: "
+                              f"{sorted(orig.namespace)} (was {names_before})", case=case, holder=holder, how=how)
+                continue
+            if before is not None and h.to_proto(M).SerializeToString(deterministic=True) != before:
+                rec.violation("addition-through-copy-reaches-original", f"after an addition to a {how} of a {holder} the original module exports differently", case=case,
+                              holder=holder, how=how)
+
     # ports declared by external modules and primitives
     def declared():
         x = h.ExternalModule(name=f"TakeX{next(_ctr)}", domain="hvtake", port_list=[h.Input(name="g"), h.Port(name="d"), h.Port(name="s")], paramtype=h.HasNoParams)
